@@ -84,7 +84,7 @@ def check_pair(tbl, op, va, ua, vb, ub, r1, r2):
 
 def run(chk):
     binary, tbl = qtylib.session()
-    proved = chk.prove("Props.C12", THEOREMS, ["theories/Props/C12.vo", "theories/Qty/Prelude.vo"],
+    proved = chk.prove("Props.C12", THEOREMS, ["theories/Props/C12.vo", "theories/Qty/Prelude.vo", "theories/Props/C12F.vo", "theories/Qty/PreludeF.vo"],
                        extra_obligations=["Qty.Prelude.prelude_wf", "Qty.Prelude.prelude_exact_int",
                                           "Qty.Prelude.prelude_exact_pos"])
     chk.trusted += [
@@ -185,6 +185,19 @@ def run(chk):
             tbl.coq_q(qtylib.f2bits(c["va"]), c["ua"]), tbl.coq_q(qtylib.f2bits(c["vb"]), c["ub"]))
         items.append((term, ob.expected_model_string() if scope else "OOS"))
         idx.append(n)
+    # float-exact level (kernel floats): the model must reproduce the implementation's magnitude bit for bit
+    float_cases = 0
+    for n, c in enumerate(cases):
+        ob = c["obs"][0]
+        if ob.kind != "Q" or not (tbl.float_unit_supported(c["ua"]) and tbl.float_unit_supported(c["ub"])):
+            continue
+        if quick and float_cases >= 1500:
+            break
+        float_cases += 1
+        items.append(("rf_%s PF_env %s %s %s" % (c["op"], qtylib.coq_fb(ob.value), tbl.coq_qF(qtylib.f2bits(c["va"]), c["ua"]),
+                                               tbl.coq_qF(qtylib.f2bits(c["vb"]), c["ub"])),
+                      "ok:" + qtylib.show_unit(ob.unit)))
+        idx.append(n)
     bad = qtylib.coq_mismatches(items, "c12")
     mism = {idx[k]: v for k, v in bad.items()}
 
@@ -219,7 +232,7 @@ def run(chk):
         "exhaustive": True, "exhaustive_what": "unordered same-dimension unit pairs (%d ordered)" % len(pairs),
         "pair_cases": len(cases), "pair_cases_different_size": diff_size,
         "zero_operand_cases": sum(1 for c in cases if c["va"] == 0.0 or c["vb"] == 0.0),
-        "skipped_size_ties": size_ties, "triples": len(triples), "model_evaluations": len(items), "model_mismatches": len(mism),
+        "skipped_size_ties": size_ties, "float_exact_coq_cases": float_cases, "triples": len(triples), "model_evaluations": len(items), "model_mismatches": len(mism),
         "oracle_failures": len(failing) + len(tfail), "relative_tolerance": REL,
         "samples": [{"lines": cases[i]["lines"], "implementation": [o.raw for o in cases[i]["obs"]]}
                     for i in (0, len(cases) // 2, len(cases) - 1)] + [{"triple": triples[0]["lines"][:2]}],
